@@ -260,18 +260,34 @@ pub struct Workdir {
 }
 
 impl Workdir {
+    /// `char.def` = the shipped resources/char.def (all categories); `rewrite.def` = resources/rewrite.def
     pub fn new(tag: &str) -> Workdir {
-        let root = std::env::var("VERIF_ROOT").unwrap_or_else(|_| "/verif".to_string());
-        let path = PathBuf::from(format!("{}/.build/work/{}-{}", root, tag, std::process::id()));
-        let _ = std::fs::remove_dir_all(&path);
-        std::fs::create_dir_all(&path).unwrap();
-        let w = Workdir { path };
-        w.write("char.def", &std::fs::read_to_string("/repo/sudachi/tests/resources/char.def").unwrap());
+        let w = Self::empty(tag);
+        w.write("char.def", &std::fs::read_to_string("/repo/resources/char.def").unwrap());
         w.write("char_full.def", &std::fs::read_to_string("/repo/resources/char.def").unwrap());
         w.write("unk.def", &std::fs::read_to_string("/repo/sudachi/tests/resources/unk.def").unwrap());
         w.write("rewrite.def", &std::fs::read_to_string("/repo/resources/rewrite.def").unwrap());
         w
     }
+
+    /// as the first generation of harness modules expects it: the test suite's char.def and rewrite.def
+    pub fn new_legacy(tag: &str) -> Workdir {
+        let w = Self::empty(tag);
+        w.write("char.def", &std::fs::read_to_string("/repo/sudachi/tests/resources/char.def").unwrap());
+        w.write("char_full.def", &std::fs::read_to_string("/repo/resources/char.def").unwrap());
+        w.write("unk.def", &std::fs::read_to_string("/repo/sudachi/tests/resources/unk.def").unwrap());
+        w.write("rewrite.def", &std::fs::read_to_string("/repo/sudachi/tests/resources/rewrite.def").unwrap());
+        w
+    }
+
+    fn empty(tag: &str) -> Workdir {
+        let root = std::env::var("VERIF_ROOT").unwrap_or_else(|_| "/verif".to_string());
+        let path = PathBuf::from(format!("{}/.build/work/{}-{}", root, tag, std::process::id()));
+        let _ = std::fs::remove_dir_all(&path);
+        std::fs::create_dir_all(&path).unwrap();
+        Workdir { path }
+    }
+
     pub fn write(&self, name: &str, content: &str) {
         std::fs::write(self.path.join(name), content).unwrap();
     }
